@@ -202,12 +202,14 @@ SwOf(S, pairs) == [k \in 1..NLag |-> Cardinality({p \in pairs : Lag(S[p[1]].id, 
 CenteringData(S) == DataVM(S, LAMBDA i, w : IsActive(S[i]) /\ S[i].z[w])
 
 \* migrate point -> point (CalcMigrate::_expandPointToPoint): nearest ACTIVE sample, whatever its value;
-\* with flag_ball: nearest sample of a tree holding all samples (no selection)
 NearestOf(S, A, t) == IF A = {} THEN 0 ELSE SortByDist(S, A, t)[1]
 MigrateSrc(S, t)     == NearestOf(S, {i \in DOMAIN S : IsActive(S[i]) /\ S[i].c}, t)
-\* (a sample with an undefined coordinate is in the tree, at distance 1e30: it wins when it is alone)
-MigrateBallSrc(S, t) == IF {i \in DOMAIN S : S[i].c} # {} THEN NearestOf(S, {i \in DOMAIN S : S[i].c}, t)
-                        ELSE IF S = <<>> THEN 0 ELSE 1
+\* with flag_ball (_expandPointToPointBall, after the repair of the selection): nearest sample of a tree holding
+\* the samples of getRanksActive(); the value is not tested, and a sample with an undefined coordinate is in the
+\* tree at distance 1e30: it wins when no sample has coordinates
+MigrateBallSrc(S, t) == LET cand == {i \in DOMAIN S : RanksActive(S[i])} IN
+                        IF {i \in cand : S[i].c} # {} THEN NearestOf(S, {i \in cand : S[i].c}, t)
+                        ELSE IF cand = {} THEN 0 ELSE CHOOSE i \in cand : \A j \in cand : i <= j
 \* declared: nearest usable sample for the migrated variable (variable 1)
 DeclMigrateSrc(S, t) == NearestOf(S, {i \in DOMAIN S : UsableDatum(S[i], 1, {"c"})}, t)
 
@@ -229,14 +231,15 @@ MigrateFill(S) == IF /\ FillList(S) = [k \in 1..Len(FillList(S)) |-> k] /\ \A k 
                   ELSE [g \in Nodes |-> -1]
 DeclMigrateFill(S) == [g \in Nodes |-> NearestToNode(S, {i \in DOMAIN S : UsableDatum(S[i], 1, {"c"})}, g)]
 
-\* conditional turning bands: the band extents (_minmax) span every ACTIVE data sample, read
-\* through its coordinates whether they are defined or not
-SimExtentUndefined(S) == \E i \in DOMAIN S : IsActive(S[i]) /\ ~S[i].c
-
-\* conditional turning bands on POINT targets, _updateData2ToTarget ("copy the datum onto a coinciding target"):
-\* the coordinates of target number t are read in the DATA Db at row t, so that target t always coincides with
-\* data row t and receives its value
-SimPointCopy(S, t) == [w \in Vars |-> IF t <= Len(S) /\ IsActive(S[t]) /\ S[t].z[w] THEN t ELSE 0]
+\* conditional turning bands: the bands are sized on the samples that have coordinates (_minmax, repaired), but
+\* the non-conditional simulation AT THE DATA (_simulatePoint on the input Db, driven by getActiveArray = isActive)
+\* still evaluates every active sample through its coordinates: with 1.234e30 the position-indexed band processes
+\* (TurningBandOperate::shotNoiseAffineOne / shotNoiseCubicOne, spherical and cubic structures) index their array
+\* at (int)(1e30): the run is lost.  With the other structures (simtub_exp: exponential) a value is simulated at
+\* that sample, and KrigingSystem::_simulateCalcul then pairs the kriging weights (compressed by _flagDefine,
+\* which dropped the sample) with every neighbour whose simulated error is defined (which includes it): all the
+\* following weights are shifted by one datum.  Either way the result is not that of the usable data (FailMark)
+SimDataPointUndefined(S) == \E i \in DOMAIN S : IsActive(S[i]) /\ ~S[i].c
 
 \* row-level readers of the selection: Db::createReduce (rows of getRanksActive() without variable),
 \* getSampleNumber(true), getColumn(useSel = true, compressed) (cell exactly 1), getRanksActive, getActiveArray
@@ -255,13 +258,13 @@ DeclRows(S) == LET r == Idx(S, LAMBDA i : SelOn(S[i])) IN <<r, Len(r), r, r, r>>
 KNeeds == IF HasF THEN {"c", "f"} ELSE {"c"}      \* what kriging reads of a sample
 
 OpNames == <<"krig_u", "krig_m", "krig_mb", "neigh_u", "neigh_m", "neigh_mb", "xvalid_u", "xvalid_m",
-             "vario", "vario_cov", "stat", "stat_iso", "cov", "cov_sym", "drift", "simtub", "simtub_pt", "migrate",
+             "vario", "vario_cov", "stat", "stat_iso", "cov", "cov_sym", "drift", "simtub", "simtub_pt", "simtub_exp", "migrate",
              "migrate_ball", "migrate_grid", "migrate_fill", "reduce">>
 Ops == Range(OpNames)
 
 \* fields read besides the values = which Reduce the operation is compared with
 NeedsOf(op) ==
-  CASE op \in {"krig_u", "krig_m", "krig_mb", "xvalid_u", "xvalid_m", "simtub", "simtub_pt"} -> KNeeds
+  CASE op \in {"krig_u", "krig_m", "krig_mb", "xvalid_u", "xvalid_m", "simtub", "simtub_pt", "simtub_exp"} -> KNeeds
     [] op = "neigh_u" -> {}                  \* ANeigh promises: not masked, not all undefined (the rest is _flagDefine's)
     [] op \in {"neigh_m", "neigh_mb"} -> {"c"}
     [] op \in {"vario", "vario_cov"} -> {"c"}
@@ -275,7 +278,7 @@ NeedsOf(op) ==
 \* shape: "data" = sequence of <<position, variable>>, "idx" = sequence of positions, "t..." = one per target,
 \* "tsrc" = one position (or 0) per target, "count" = numbers only
 KindOf(op) ==
-  CASE op \in {"krig_u", "xvalid_u", "simtub", "stat", "stat_iso", "cov", "cov_sym", "drift"} -> "data"
+  CASE op \in {"krig_u", "xvalid_u", "simtub", "simtub_pt", "simtub_exp", "stat", "stat_iso", "cov", "cov_sym", "drift"} -> "data"
     [] op \in {"krig_m", "krig_mb", "xvalid_m"} -> "tdata"
     [] op = "neigh_u" -> "idx"
     [] op = "reduce" -> "rows5"
@@ -284,10 +287,9 @@ KindOf(op) ==
     [] op = "migrate_grid" -> "idx"
     [] op = "vario_cov" -> "countidx"
     [] op = "vario" -> "count"
-    [] op = "simtub_pt" -> "datasrc"
 
 DeclOf(op, S) ==
-  CASE op \in {"krig_u", "xvalid_u", "simtub"} -> DeclData(S, KNeeds)
+  CASE op \in {"krig_u", "xvalid_u", "simtub", "simtub_pt", "simtub_exp"} -> DeclData(S, KNeeds)
     [] op \in {"krig_m", "krig_mb", "xvalid_m"} ->
          [t \in Targets |-> LET nb == DeclNbMoving(S, t, KNeeds) IN
                               DataVM(S, LAMBDA i, w : i \in Range(nb) /\ UsableDatum(S[i], w, KNeeds))]
@@ -304,14 +306,13 @@ DeclOf(op, S) ==
     [] op = "migrate_grid" -> DeclMigrateGrid(S)
     [] op = "migrate_fill" -> DeclMigrateFill(S)
     [] op = "reduce" -> DeclRows(S)
-    [] op = "simtub_pt" -> <<DeclData(S, KNeeds), [t \in Targets |-> [w \in Vars |-> 0]]>>   \* no target coincides with a datum
 
-HangMark == <<<<0, 0>>>>
+FailMark == <<<<0, 0>>>>
 CodeOf(op, S) ==
   CASE op = "krig_u" -> FlagDefine(S, NbUnique(S))
     [] op = "xvalid_u" -> IF NVar = 1 /\ XvAddressed(S) # XvCompressed(S, NbUnique(S)) THEN BadMark
                           ELSE FlagDefine(S, NbUnique(S))
-    [] op = "simtub" -> IF SimExtentUndefined(S) THEN HangMark ELSE FlagDefine(S, NbUnique(S))
+    [] op \in {"simtub", "simtub_pt", "simtub_exp"} -> IF SimDataPointUndefined(S) THEN FailMark ELSE FlagDefine(S, NbUnique(S))
     [] op \in {"krig_m", "xvalid_m"} -> [t \in Targets |-> FlagDefine(S, NbMoving(S, t))]
     [] op = "krig_mb" -> [t \in Targets |-> FlagDefine(S, NbMovingBall(S, t))]
     [] op = "neigh_u" -> NbUnique(S)
@@ -329,8 +330,6 @@ CodeOf(op, S) ==
     [] op = "migrate_grid" -> MigrateGrid(S)
     [] op = "migrate_fill" -> MigrateFill(S)
     [] op = "reduce" -> RowReaders(S)
-    [] op = "simtub_pt" -> <<IF SimExtentUndefined(S) THEN HangMark ELSE FlagDefine(S, NbUnique(S)),
-                             [t \in Targets |-> SimPointCopy(S, t)]>>
 
 \* positions -> identities (this is Expand: a result on Reduce(S) re-indexed on S)
 PairsToId(S, q) == [k \in DOMAIN q |-> IF q[k][1] = 0 THEN q[k] ELSE <<S[q[k][1]].id, q[k][2]>>]
@@ -344,8 +343,6 @@ ToId(op, S, x) ==
     [] KindOf(op) = "count" -> x
     [] KindOf(op) = "countidx" -> <<x[1], PairsToId(S, x[2])>>
     [] KindOf(op) = "rows5" -> <<IdxToId(S, x[1]), x[2], IdxToId(S, x[3]), IdxToId(S, x[4]), IdxToId(S, x[5])>>
-    [] KindOf(op) = "datasrc" -> <<PairsToId(S, x[1]),
-                                   [t \in Targets |-> [w \in Vars |-> IF x[2][t][w] = 0 THEN 0 ELSE S[x[2][t][w]].id]]>>
 
 Spec_(op, S)      == ToId(op, S, DeclOf(op, S))                       \* what C05 promises
 OnMasked(op, S)   == ToId(op, S, CodeOf(op, S))                       \* what the code does on the masked Db
@@ -399,16 +396,19 @@ ModelDeviation(op, S) ==
   \/ op \in {"krig_mb", "neigh_mb"} /\ (Len(S) < NMaxi \/ Len(Keep(S, NeedsOf(op))) < NMaxi)
        \* D1b the k-nearest query fails (empty neighbourhood) when the Db holds fewer than NMaxi rows: the reduced
        \*    Db and the masked Db differ by their number of rows
-  \/ op = "migrate_ball" /\ (ft.sel_off \/ ft.zall_na \/ ft.hetero \/ ft.coord_na)
-       \* D2 same tree in CalcMigrate::_expandPointToPointBall: the value of a masked sample is copied
+  \/ op = "migrate_ball" /\ (ft.zall_na \/ ft.hetero \/ ft.coord_na)
+       \* D2 CalcMigrate::_expandPointToPointBall: like D3 the nearest sample wins even when its value is undefined,
+       \*    and a sample without coordinates is a candidate (the selection part has been repaired in the library)
   \/ op = "migrate" /\ (ft.zall_na \/ ft.hetero)
        \* D3 the nearest active sample wins even when its value is undefined (point -> grid skips those)
   \/ op \in {"cov", "cov_sym", "drift"} /\ ft.coord_na
        \* D4 getRanksActive tests selection, value and Verr, not the coordinates: rows computed from 1.234e30
   \/ op = "drift" /\ ft.f_na
        \* D5 ... nor the external drift: the drift matrix holds 1.234e30
-  \/ op = "simtub" /\ ft.coord_na
-       \* D6 band extents (_minmax) computed through the undefined coordinates of active samples
+  \/ op \in {"simtub", "simtub_pt", "simtub_exp"} /\ ft.coord_na
+       \* D6 the simulation at the data points evaluates the active samples without coordinates (out-of-range index
+       \*    in the band arrays), and _simulateCalcul pairs the weights with the data by "error defined" instead of
+       \*    the flags of _flagDefine; the sizing of the bands through such samples has been repaired in the library
   \/ op \in {"krig_m", "krig_mb", "xvalid_m"} /\ ft.f_na
        \* D7 samples that _flagDefine drops later (undefined external drift) still fill the NMaxi slots
   \/ op = "xvalid_u" /\ (ft.coord_na \/ ft.f_na)
@@ -418,8 +418,7 @@ ModelDeviation(op, S) ==
        \* D10 expandPointToGrid uses ranks of the compressed list of usable samples as row numbers of the Db
   \/ op = "vario_cov" /\ ft.coord_na
        \* D11 the experimental covariance is centred with a mean that includes the samples without coordinates
-  \/ op = "simtub_pt"
-       \* D8 point targets: target t is overwritten with the value of data ROW t (index of the output Db used
-       \*    in the input Db), so the result depends on the row numbers, which masked samples shift
+       \* (D8, conditional simulation on point targets reading the target coordinates in the input Db, has been
+       \*  repaired in the library and removed from the transcription)
 
 =============================================================================
